@@ -6,6 +6,7 @@ package pod
 //
 //@ func GetPodConditionFromList
 //@   pure
+//@   reads elems(conditions)
 //@   ensures result == 0 - 1 <==> result1 == nil
 //@   ensures result1 != nil ==> 0 <= result && result < len(conditions) && result1 == &conditions[result] && conditions[result].Type == conditionType
 //@   ensures result1 == nil ==> forall i int :: 0 <= i && i < len(conditions) ==> conditions[i].Type != conditionType
